@@ -565,6 +565,10 @@ const WithTrace = "with-trace-logging"
 // of the library).
 var VerboseHook func(level int, fn func())
 
+// RacePost parses the race detector's logs of a run (set by the monitor package). It is
+// used by C19 as its Post hook and by the race side run of every other property.
+var RacePost func(*PostInfo) ([]*Violation, []string)
+
 // verboseLevels is the rotation of log levels used by the re-runs: mostly the two verbose
 // ones, now and then a quieter one than the default (code guarded by "level >= debug" but
 // prepared under "level >= trace", or the converse, runs at exactly one of them).
@@ -829,6 +833,7 @@ type PostInfo struct {
 	Shards   int
 	Coverage map[string]map[string]int64
 	Counters map[string]int64
+	Property string // the property the run belongs to (race side runs of properties other than C19)
 }
 
 var registry = map[string]*Property{}
